@@ -2,8 +2,8 @@
 import json
 import vkit
 
-def gen(chk, name, mech, pa, pb, D, simulate, seed, acts, sops):
-    c = {"Mech": mech, "PriorA": pa, "PriorB": pb, "Acts": set(acts), "ScriptOps": set(sops), "D": D}
+def gen(chk, name, mech, pa, pb, D, simulate, seed, acts, sops, evs=(1, 2, 3, 4)):
+    c = {"Mech": mech, "PriorA": pa, "PriorB": pb, "Acts": set(acts), "ScriptOps": set(sops), "D": D, "Evs": set(evs)}
     cfg = vkit.write_cfg(name, c, invariants=["Inv", "Emit"], constraint="GenConstraint")
     hs, seen = [], set()
     def sink(v):
@@ -26,6 +26,9 @@ def run(tier, seed):
     hist = {}
     for (mech, pa, pb) in combos:
         hs = gen(chk, "C07_exh_%s_%s" % (mech, pa), mech, pa, pb, 3, None, seed, ["add", "del", "raise", "loop", "basefree", "reinit"], [])
+        # exhaustive script family on signal A's two events (one persistent, one not): every history of 6 calls over
+        # add / raise / script(del) / loop - includes a self-delete in the middle of a coalesced batch of deliveries
+        hs += gen(chk, "C07_exh_scr_%s_%s" % (mech, pa), mech, pa, pb, 6, None, seed, ["add", "raise", "loop", "script"], ["del"], evs=(1, 2))
         # script-heavy: deletes (incl. self-delete inside an ncalls batch) and raises from inside callbacks
         hs += gen(chk, "C07_scr_%s_%s" % (mech, pa), mech, pa, pb, 7 if q else 9, 60 if q else 500, seed + 1,
                   ["add", "raise", "loop", "script"], ["del"])
